@@ -225,7 +225,96 @@ def run_reduce(c):
     return out
 
 
-RUNNERS = {"scs": run_scs, "scs-mdl": run_scs_mdl, "argmax": run_argmax, "segargmax": run_segargmax, "reduce": run_reduce}
+# ----------------------------------------------------------------------------- C19
+def _mk_f(sig, leaves=("id",)):
+    """def f(a, b, /, c, *, d): s = 1*a + 10*b + 100*c + 1000*d; return <pytree of s>"""
+    parts = []
+    names = [p["name"] for p in sig]
+    kinds = [p["kind"] for p in sig]
+    for i, n in enumerate(names):
+        if kinds[i] == "kw" and (i == 0 or kinds[i - 1] != "kw"):
+            parts.append("*")
+        parts.append(n)
+        if kinds[i] == "pos" and (i + 1 == len(names) or kinds[i + 1] != "pos"):
+            parts.append("/")
+    body = " + ".join(f"{10 ** i} * {n}" for i, n in enumerate(names))
+    tr = {"id": "s", "double": "2 * s", "inc": "s + 1"}
+    if list(leaves) == ["id"]:
+        ret = "s"
+    elif len(leaves) == 2 and leaves[1] == "double":
+        ret = "(s, 2 * s)"
+    else:
+        ret = "{" + ", ".join(f"'k{j}': {tr[t]}" for j, t in enumerate(leaves)) + "}"
+    ns = {}
+    exec(f"def f({', '.join(parts)}):\n    s = {body}\n    return {ret}\n", ns)  # noqa: S102
+    return ns["f"]
+
+
+def _toint(x):
+    x = float(x)
+    return int(x) if x == int(x) and abs(x) < 2**30 else -1
+
+
+def run_map(c):
+    import jax
+    import jax.numpy as jnp
+    import numpy as np
+
+    from lcm.dispatchers import productmap, spacemap, vmap_1d
+
+    out = dict(c)
+    try:
+        f = _mk_f(c["sig"], c["leaves"])
+        names = [p["name"] for p in c["sig"]]
+        vals = {n: (jnp.asarray(c["arrays"][n]) if n in c["arrays"] and (n in c["product"] or n in c["joint"]) else c["scalars"][n])
+                for n in names}
+        v = c["variant"]
+        if v == "productmap":
+            g = productmap(f, variables=list(c["product"]))
+        elif v == "vmap_1d":
+            g = vmap_1d(f, variables=list(c["joint"]), callable_with=c.get("callable_with", "only_kwargs"))
+        else:
+            g = spacemap(f, dense_vars=list(c["product"]), sparse_vars=list(c["joint"]), put_dense_first=bool(c["dense_first"]))
+        if c.get("jit"):
+            g = jax.jit(g)
+        order = c.get("kworder") or names
+        cm = c["callmode"]
+        if v == "vmap_1d" and c.get("callable_with") == "only_args" and cm == "ok":
+            res = g(*[vals[n] for n in names])
+        elif cm == "ok":
+            res = g(**{n: vals[n] for n in order})
+        elif cm == "missing":
+            res = g(**{n: vals[n] for n in order[1:]})
+        elif cm == "extra":
+            res = g(**{n: vals[n] for n in order}, zz=1)
+        else:
+            res = g(*[vals[n] for n in names])
+        leaves = jax.tree_util.tree_leaves(res)
+        out["obs"] = {"error": False, "cls": "", "msg": "",
+                      "leaves": [{"shape": [int(x) for x in np.asarray(l).shape], "out": [_toint(x) for x in np.asarray(l).ravel()]} for l in leaves]}
+    except Exception as e:  # noqa: BLE001
+        out["obs"] = {"error": True, "cls": type(e).__name__, "msg": str(e)[:200], "leaves": []}
+    return out
+
+
+def run_call(c):
+    from lcm.functools import allow_args, allow_only_kwargs
+
+    out = dict(c)
+    f = _mk_f(c["sig"])
+    names = [p["name"] for p in c["sig"]]
+    w = allow_only_kwargs(f) if c["wrapper"] == "allow_only_kwargs" else allow_args(f)
+    args = list(range(1, c["call"]["nargs"] + 1))
+    kwargs = {n: (4 + names.index(n) + 1 if n in names else 0) for n in c["call"]["kw"]}
+    try:
+        val = w(*args, **kwargs)
+        out["obs"] = {"error": False, "value": _toint(val), "cls": "", "msg": ""}
+    except (ValueError, TypeError) as e:
+        out["obs"] = {"error": True, "value": -1, "cls": type(e).__name__, "msg": str(e)[:200]}
+    return out
+
+
+RUNNERS = {"map": run_map, "call": run_call, "scs": run_scs, "scs-mdl": run_scs_mdl, "argmax": run_argmax, "segargmax": run_segargmax, "reduce": run_reduce}
 
 
 def run_unit(c):
